@@ -7,6 +7,7 @@ mod engine_sr;
 mod props;
 mod refcbor;
 mod refmodel;
+mod reqcheck;
 mod spec;
 mod subject;
 
